@@ -269,6 +269,23 @@ def run(repo: Repo, rep: Report, tier: str) -> None:
                 rep.check(fresh, "C16-R4", f"{f.short}: id passed to {nm} is fresh per iteration",
                           f"{norm(c.args[0])} derives from {sorted(str(l) for l in leaves if l.kind != 'const')}", f.loc(c))
     rep.floor("C16-R4", "declaration id sites", n_ids, 2)
+    # node ids spelled out by the lowerer (f-string handed to an IR node constructor): unique per expansion only if some interpolated part is an IR-level id
+    # (an entity/memory id looked up in the lowerer's tables, a fresh id, the id of another node) — the DSL name is the same in every iteration
+    n_exp = 0
+    for f in repo.all_funcs():
+        if ".lowering." not in f.module.name + ".":
+            continue
+        cf_ = None
+        for c in calls_in(f.node):
+            if call_name(c).startswith("IR") and c.args and isinstance(c.args[0], ast.JoinedStr):
+                cf_ = cf_ or canon(f)
+                parts = [cf_.text(v.value) for v in c.args[0].values if isinstance(v, ast.FormattedValue)]
+                n_exp += 1
+                unique = [p_ for p_ in parts if re.search(r"self\.parent\.(entity_refs|memory_refs)\[|next_id\(|\.node_id\b|\.source_id\b|_id\b", p_)]
+                rep.check(bool(unique), "C16-R4", f"{f.short}: explicit id of {call_name(c)} is unique per iteration",
+                          f"contains {unique[0][:60]}" if unique else
+                          f"built from {[p_[:40] for p_ in parts]} only: every iteration that declares the same name produces the same node id, and the copies collapse into one node", f.loc(c))
+    rep.floor("C16-R4", "explicit node ids in the lowerer", n_exp, 1)
 
     # ---------------- R5 ---------------------------------------------------------------
     rep.rule("C16-R5", "the transformer takes start and stop from the first and second bound, the step from the bound after STEP_KW "
